@@ -614,25 +614,46 @@ fn analyse_events(run: &Run, check_logs: bool, check_sd: bool) -> Vec<Failure> {
 }
 
 fn created_before(ev: &[Ev], upto: usize, addr: &Address) -> bool {
-    // the executing account is being created by an enclosing create frame (constructor running)
-    let mut open: Vec<Option<Address>> = vec![];
-    for e in &ev[..upto] {
+    // the executing account is being created by an enclosing create frame: its constructor is running, or code
+    // running on its behalf (DELEGATECALL / CALLCODE from the constructor executes at the same address).
+    // A frame merely *nested inside* a constructor (the constructor CALLs an older contract) is not.
+    let mut open: Vec<usize> = vec![];
+    for (i, e) in ev[..upto].iter().enumerate() {
         match e {
-            Ev::Create { inputs, .. } => {
-                let _ = inputs;
-                open.push(None)
-            }
-            Ev::EofCreate { .. } => open.push(None),
-            Ev::Call { .. } => open.push(Some(Address::ZERO)),
+            Ev::Create { .. } | Ev::EofCreate { .. } | Ev::Call { .. } => open.push(i),
             Ev::CreateEnd { .. } | Ev::EofCreateEnd { .. } | Ev::CallEnd { .. } => {
                 open.pop();
             }
             _ => {}
         }
     }
-    // any enclosing create frame: the constructor executes at the new address
-    let _ = addr;
-    open.iter().any(|o| o.is_none())
+    for start in open {
+        if !matches!(ev[start], Ev::Create { .. } | Ev::EofCreate { .. }) {
+            continue;
+        }
+        // the matching end notification carries the address under construction
+        let mut depth = 0i32;
+        for e in &ev[start..] {
+            match e {
+                Ev::Create { .. } | Ev::EofCreate { .. } | Ev::Call { .. } => depth += 1,
+                Ev::CallEnd { .. } => depth -= 1,
+                Ev::CreateEnd { address, .. } | Ev::EofCreateEnd { address, .. } => {
+                    depth -= 1;
+                    if depth == 0 {
+                        if address.as_ref() == Some(addr) {
+                            return true;
+                        }
+                        break;
+                    }
+                }
+                _ => {}
+            }
+            if depth == 0 {
+                break;
+            }
+        }
+    }
+    false
 }
 
 fn short_ev(e: &Ev) -> String {
